@@ -183,13 +183,26 @@ class RefQueue:
         return None
 
 
+def copy_bytes_for(hist, real_value):
+    """COPY_BYTES used while a history runs: the model copies the whole file at a
+    migration whatever the chunk size, so small chunk sizes (several iterations
+    of the real copy loop) must not change anything.  A function of (limit,
+    overflow) only, so that shrinking a history keeps it."""
+    limit, ovf = hist[0], hist[1]
+    if limit > 64:
+        return real_value
+    return (1, 5, real_value)[(limit + ovf) % 3]
+
+
 def run_real_ob(hist):
     """-> list of (out, state line, RefQueue verdict, bytes held) per op, preceded by the initial state"""
     import waitress.buffers as wb
 
     limit, ovf, ops = hist
     saved = wb.STRBUF_LIMIT
+    saved_copy = wb.COPY_BYTES
     wb.STRBUF_LIMIT = limit
+    wb.COPY_BYTES = copy_bytes_for(hist, saved_copy)
     res = []
     try:
         b = wb.OverflowableBuffer(ovf)
@@ -206,6 +219,7 @@ def run_real_ob(hist):
             pass
     finally:
         wb.STRBUF_LIMIT = saved
+        wb.COPY_BYTES = saved_copy
     return res
 
 
@@ -224,27 +238,39 @@ def spec_verdict(op, out, specout, specq):
 
 
 def compare_ob(hist, real, model):
-    """-> None or (step index, which, expected, observed)"""
+    """-> None or (step index, which, expected, observed); a departure from the
+    queue (the property itself) is preferred over a disagreement with the model
+    when both occur in the history"""
+    fs = compare_ob_all(hist, real, model)
+    for which in ("queue", "spec", "model"):
+        if which in fs:
+            return fs[which]
+    return None
+
+
+def compare_ob_all(hist, real, model):
+    """first failure of each kind: {'model'|'queue'|'spec': (step, which, expected, observed)}"""
     limit, ovf, ops = hist
     alive = True
+    out_f = {}
     for i, ((out, st, refv, held), mline) in enumerate(zip(real, model)):
         parts = [p.strip() for p in mline.split(" | ")]
         mout, mst = parts[0], canon_model_state(parts[1])
-        if (out, st) != (mout, mst):
-            return (i, "model", "%s | %s" % (mout, mst), "%s | %s" % (out, st))
+        if (out, st) != (mout, mst) and "model" not in out_f:
+            out_f["model"] = (i, "model", "%s | %s" % (mout, mst), "%s | %s" % (out, st))
         if i == 0:
             continue
         op = ops[i - 1]
-        if refv is not None:
-            return (i, "queue", refv, "%s | %s" % (out, st))
+        if refv is not None and "queue" not in out_f:
+            out_f["queue"] = (i, "queue", refv, "%s | %s" % (out, st))
         if op[0] == "close" and held is None:
             alive = False
-        if alive and op[0] != "close":
+        if alive and op[0] != "close" and "spec" not in out_f:
             m = re.match(r"spec=(\S+) queue=(\S+)", parts[2])
             specout, specq = m.group(1), m.group(2)
             if not spec_verdict(op, out, specout, specq) or held != specq:
-                return (i, "spec", "spec=%s queue=%s" % (specout, specq), "%s | %s | holds %s" % (out, st, held))
-    return None
+                out_f["spec"] = (i, "spec", "spec=%s queue=%s" % (specout, specq), "%s | %s | holds %s" % (out, st, held))
+    return out_f
 
 
 # ---------------------------------------------------------------------------
@@ -326,13 +352,20 @@ def threshold_grid(real_limit=8192):
     return out, big
 
 
-def exhaustive_histories(limit, ovf, length):
+def exhaustive_alphabet(limit, which="A"):
+    if which == "A":
+        return [("a", 1), ("a", limit - 1), ("a", limit + 1),
+                ("g", -1, False), ("g", 2, False), ("g", 2, True), ("g", -1, True), ("g", limit + 5, True),
+                ("s", 1, False), ("s", 1, True), ("s", limit - 1, True), ("s", "len", True),
+                ("f",)]
+    return [("a", 2), ("a", limit), ("g", 1, True), ("g", 3, False), ("s", 2, True), ("s", "len", False),
+            ("s", 0, True), ("l",), ("c",)]
+
+
+def exhaustive_histories(limit, ovf, length, which="A"):
     """every history of exactly `length` ops over a tiny alphabet (prefixes are
     covered because the comparison is made after every op)"""
-    alpha = [("a", 1), ("a", limit - 1), ("a", limit + 1),
-             ("g", -1, False), ("g", 2, False), ("g", 2, True), ("g", -1, True), ("g", limit + 5, True),
-             ("s", 1, False), ("s", 1, True), ("s", limit - 1, True), ("s", "len", True),
-             ("f",)]
+    alpha = exhaustive_alphabet(limit, which)
     for combo in itertools.product(alpha, repeat=length):
         src = Bytesrc()
         cur = 0
@@ -350,8 +383,12 @@ def exhaustive_histories(limit, ovf, length):
                 ops.append(["skip", n, c[2]])
                 if n <= cur:
                     cur -= n
-            else:
+            elif c[0] == "f":
                 ops.append(["getfile"])
+            elif c[0] == "l":
+                ops.append(["len"])
+            else:
+                ops.append(["close"])
         yield (limit, ovf, ops)
 
 
